@@ -83,6 +83,7 @@ func runMint(seed int64, histories, steps int, out *Emitter) {
 		// the parameters as governance set them (by key) — what the blocks are judged against, whatever
 		// the keeper hands back
 		want := c.A.MintKeeper.GetParams(c.Ctx())
+		qr := rand.New(rand.NewSource(seed*7919 + int64(hi) + 41))
 		for i := 0; i < steps; i++ {
 			pre := c.mintAbs(c.H)
 			if c.InBlk {
@@ -107,6 +108,15 @@ func runMint(seed int64, histories, steps int, out *Emitter) {
 				pre = c.mintAbs(c.H)
 			}
 			params := want
+			if restartsOn && c.H > 2 && qr.Intn(120) == 0 {
+				// the network restarts from its own exported genesis: this block is the first of the new
+				// application and must continue the emission where the old one stopped
+				if e := c.RestartInit(); e != "" {
+					out.Emit(map[string]interface{}{"mod": "panic", "where": "restart", "hist": hi, "i": i, "h": c.H, "panic": e})
+					break
+				}
+				out.Count("mint.restart", true)
+			}
 			if p := c.Begin(6 * time.Second); p != nil {
 				out.Emit(map[string]interface{}{"mod": "panic", "where": "BeginBlock", "h": c.H, "panic": fmt.Sprint(p), "params": paramsJ(params)})
 				break
